@@ -209,6 +209,9 @@ func DurationString(label string, lo, hi time.Duration) string {
 	return Duration(label, lo, hi).String()
 }
 
+// DurationStringOf renders a duration the way time.ParseDuration reads it back (exactly).
+func DurationStringOf(d time.Duration) string { return d.String() }
+
 func Quantity(label string, lo, hi int64) resource.Quantity {
 	_, v, ok := next(label)
 	n := lo
